@@ -80,6 +80,10 @@ func checkDynamicNullability(c *core.Ctx) {
 }
 
 func runC08(c *core.Ctx) {
+	c.Rule("NULLT", "AND/OR are nullable iff an operand is")
+	checkConnectiveTypes(c, "NULLT")
+	c.Rule("PADT", "outer join pads with nullable column types")
+	checkOuterJoinPadding(c, "PADT")
 	c.Rule("OVL", "overload candidates are tried independently")
 	checkOverloadLoops(c, "OVL")
 	ids := typeIDs(c.Prog)
